@@ -910,12 +910,19 @@ func ruleR05i(c *Ctx) {
 				if bd == nil {
 					continue
 				}
-				be, ok := ast.Unparen(bd).(*ast.BinaryExpr)
-				if !ok || be.Op != token.ADD {
-					continue
-				}
-				if tv, ok := pf.info.Types[be.Y]; !ok || tv.Value == nil {
-					continue
+				if ctv, ok := pf.info.Types[bd]; ok && ctv.Value != nil {
+					// a constant bound K > 0 needs K <= len(s) just the same
+					if kv, exact := constant.Int64Val(ctv.Value); !exact || kv <= 0 {
+						continue
+					}
+				} else {
+					be, ok := ast.Unparen(bd).(*ast.BinaryExpr)
+					if !ok || be.Op != token.ADD {
+						continue
+					}
+					if tv, ok := pf.info.Types[be.Y]; !ok || tv.Value == nil {
+						continue
+					}
 				}
 				n++
 				ord++
@@ -927,6 +934,21 @@ func ruleR05i(c *Ctx) {
 					nf := norm(f)
 					if nf == k+" <= "+lenX || nf == k+" < "+lenX {
 						ok2 = true
+					}
+					// a constant bound is implied by any larger constant known to be within the length
+					if ctv, isConst := pf.info.Types[bd]; isConst && ctv.Value != nil {
+						kv, _ := constant.Int64Val(ctv.Value)
+						for _, op := range []string{" <= ", " < "} {
+							if strings.HasSuffix(nf, op+lenX) {
+								var m int64
+								lhs := strings.TrimSuffix(nf, op+lenX)
+								if _, err := fmt.Sscanf(lhs, "%d", &m); err == nil && fmt.Sprint(m) == lhs {
+									if (op == " <= " && m >= kv) || (op == " < " && m >= kv-1) {
+										ok2 = true
+									}
+								}
+							}
+						}
 					}
 				}
 				c.check(ok2, "R05i", key, se.Pos(), "the bound "+k+" is compared with "+lenX+" before the string is cut",
@@ -941,21 +963,34 @@ func ruleR05i(c *Ctx) {
 // having established that the position exists: s[K] is dominated by s != "" (for K = 0), by a comparison of
 // len(s) that implies len(s) > K, or by an early exit on the short case. (An attribute such as name="" is
 // input too; tree.recover re-panics runtime errors, so an unguarded index is a crash of the caller.)
-func ruleR05j(c *Ctx) {
-	pf := getParseFacts(c)
-	if pf == nil {
+func ruleR05j(c *Ctx) { ruleConstIndexGuards(c, "R05j", "parse", 3) }
+
+// ruleConstIndexGuards is R05j for any package whose functions read caller-supplied text (the parser; the
+// globals-file reader in the root package).
+func ruleConstIndexGuards(c *Ctx, rule, rel string, floorN int) {
+	p := c.pkg(rel)
+	if p == nil {
 		return
 	}
-	info := pf.info
+	info := p.TypesInfo
 	nr := newNoRet(c)
 	n := 0
+	funcsOf := map[*types.Func]*ast.FuncDecl{}
+	for _, d := range c.allFuncDecls(rel) {
+		if strings.HasSuffix(c.Fset.Position(d.Pos()).Filename, "_test.go") {
+			continue
+		}
+		if fn, ok := info.Defs[d.Name].(*types.Func); ok {
+			funcsOf[fn] = d
+		}
+	}
 	var fns []*types.Func
-	for fn := range pf.funcs {
+	for fn := range funcsOf {
 		fns = append(fns, fn)
 	}
-	sort.Slice(fns, func(i, j int) bool {
-		return c.declKey("parse", pf.funcs[fns[i]]) < c.declKey("parse", pf.funcs[fns[j]])
-	})
+	sort.Slice(fns, func(i, j int) bool { return c.declKey(rel, funcsOf[fns[i]]) < c.declKey(rel, funcsOf[fns[j]]) })
+	type pfT struct{ funcs map[*types.Func]*ast.FuncDecl }
+	pf := pfT{funcsOf}
 	for _, fn := range fns {
 		fd := pf.funcs[fn]
 		alias := map[string]string{}
@@ -1030,12 +1065,12 @@ func ruleR05j(c *Ctx) {
 					}
 				}
 			}
-			c.check(good, "R05j", fmt.Sprintf("%s constant-index#%d %s", c.declKey("parse", fd), ord, exprKey(ix)), ix.Pos(),
+			c.check(good, rule, fmt.Sprintf("%s constant-index#%d %s", c.declKey(rel, fd), ord, exprKey(ix)), ix.Pos(),
 				"the position is known to exist before it is read",
 				exprKey(ix)+" is read without a dominating test that "+x+" is long enough: an empty (or short) value from the input makes the index fault, and the parser re-panics runtime errors instead of returning an error")
 		})
 	}
-	c.floor("R05j", "constant-position reads of input strings and slices in the parser", 3, n)
+	c.floor(rule, "constant-position reads of input strings and slices", floorN, n)
 }
 
 func rootIdent(e ast.Expr) *ast.Ident {
